@@ -269,12 +269,12 @@ def p_c04(prop, tier):
 
 def p_c05(prop, tier):
     cfgs = CFG5 if tier == "quick" else CFG8
-    count = 1000000 if tier == "quick" else 6000000
+    count = 2500000 if tier == "quick" else 30000000
     count = int(count * common.budget_scale())
     shards = 3 if tier == "quick" else 4
     if tier == "thorough":
         shards = 2
-    jobs = [Job("eng_parse", c, "rel", shards=shards, budget=B(600), args=["--count", str(count), "--tier", tier], timeout=2400) for c in cfgs]
+    jobs = [Job("eng_parse", c, "rel", shards=shards, budget=B(600), args=["--count", str(count), "--tier", tier], timeout=7200) for c in cfgs]
     jobs += [Job("eng_parse", c, "chk", shards=1, budget=B(600), args=["--count", str(count // 8), "--tier", tier], timeout=2400, name="eng_parse-%s-chk" % c.replace("+", "_")) for c in (["default", "compact"] if tier == "quick" else CFG5)]
     rule = ("the identical seeded stream of valid inputs (boundary, range-end, tie, seam, hard-case and random generators; f64 and f32 alternating) is parsed by every configuration's binary; "
             "a 64-bit hash of the result bits per 4096-case chunk is compared across configurations, a differing chunk is re-run with full output to name the input. "
